@@ -473,8 +473,15 @@ class Interp:
             if to['k'] == 'slice':
                 root = ('K', o.get('item') or o['s'], 'slice')
                 if root not in w.mem:
-                    a = ATOMS.fresh(f"len(const {o.get('item') or o['s']})", 0, ISIZE_MAX, key=('constlen', root))
-                    w.mem[root] = ('seq', Lin.atom(a), reg_ty(to['of']), (), ('const', o.get('item') or o['s']), None)
+                    known = None
+                    cj = self.facts.consts.get(o.get('item') or '')
+                    if cj and isinstance(cj.get('alloc'), dict) and cj['alloc'].get('len') == 16:
+                        known = int.from_bytes(bytes.fromhex(cj['alloc']['bytes'])[8:16], 'little')
+                    if known is not None:
+                        ln_ = Lin.c(known)
+                    else:
+                        ln_ = Lin.atom(ATOMS.fresh(f"len(const {o.get('item') or o['s']})", 0, ISIZE_MAX, key=('constlen', root)))
+                    w.mem[root] = ('seq', ln_, reg_ty(to['of']), (), ('const', o.get('item') or o['s']), None)
                     w.names[root] = f"const {o.get('item') or o['s']}"
                 return ('slice', Loc(root), Lin.c(0), w.mem[root][1])
             if to['k'] == 'str':
@@ -641,6 +648,12 @@ class Interp:
                             if ohi is not None and olo is not None and olo >= 0 and ohi < lowbit:
                                 return ('int', cst + oth)
                 res = self.fresh_int(w, aty, base.lower(), defn=(base.lower(), x, y))
+                if lo >= 0:
+                    # both operands below 2^k  =>  x|y , x^y below 2^k
+                    hx, hy = w.store.quick_bounds(x)[1], w.store.quick_bounds(y)[1]
+                    if hx is not None and hy is not None:
+                        kbits = max(hx, hy, 0).bit_length()
+                        w.store = w.store.add(le(res[1], Lin.c(2 ** kbits - 1)))
                 if base == 'BitOr' and lo >= 0:
                     # x|y >= max(x,y) and <= x+y
                     r = res[1]
@@ -1304,6 +1317,9 @@ class Interp:
             return res
         # unknown callee: result unknown, owned arguments are consumed by it
         self.note_unmodelled(f"call {key}")
+        if dest_ty['k'] == 'int':
+            a = ATOMS.fresh(f"{key.split('::')[-1]}()", *int_range(dest_ty), defn=('call', key, tuple(args)))
+            return [(w, ('int', Lin.atom(a)))]
         return [(w, ('top', reg_ty(dest_ty), ('call', key), 'ret'))]
 
     def inline(self, w, frame, bb, site, body, args):
